@@ -42,15 +42,20 @@ SHAPES = [
     "lambda gcap: ([gcap.pt for gcap in gcap.js], gcap.x + cap)",
     "lambda gcap: (gcap.js.Select(lambda j: j.trk.Where(lambda gcap: gcap.pt > 1)).Count() + gcap.n, G_CAP)",
     "lambda e: e.js.Select(lambda gcap: [gcap for gcap in gcap.trk] + [gcap]) if gcap > 0 else G_CAP",
+    # an enclosing-scope variable that has the name of a module global: python resolves it to the enclosing scope
+    "lambda e: e.x + G_DUP + cap + G_CAP",
+    "lambda e: e.js.Select(lambda j: j + G_DUP).Where(lambda G_DUP: G_DUP > G_CAP)",
+    "lambda e: [G_DUP + 1 for G_DUP in e.js] + [G_DUP, gcap]",
 ]
 NSHAPES = len(SHAPES)
 G_CAP = 0
 gcap = 0
+G_DUP = 0
 
 
 def _compile(src):
     ns = {}
-    exec("def outer(cap):\n    return %s\n" % src, globals(), ns)
+    exec("def outer(cap):\n    G_DUP = cap\n    return %s\n" % src, globals(), ns)
     return ns["outer"]
 
 
@@ -101,7 +106,7 @@ def uses(src_tree, env, v):
 
 def c04(code: int, alt: int, hist: int, v: Val, g: int, v2: int) -> str:
     """
-    pre: LO <= code < HI and 0 <= code < 24
+    pre: LO <= code < HI and 0 <= code < 27
     pre: 0 <= alt <= 6 and 0 <= hist <= 3
     pre: not isinstance(v, str) or len(v) <= 3
     pre: not isinstance(v, bytes) or len(v) <= 3
@@ -115,8 +120,9 @@ def c04(code: int, alt: int, hist: int, v: Val, g: int, v2: int) -> str:
     glob = f.__globals__
     old = (glob["G_CAP"], glob["gcap"], K.Inner.C, M.val)
     glob["G_CAP"], glob["gcap"], K.Inner.C, M.val = g, v, g + 1, g + 2
+    glob["G_DUP"] = g + 3
     try:
-        env = {"cap": v, "G_CAP": glob["G_CAP"], "gcap": glob["gcap"], "K.Inner.C": K.Inner.C, "M.val": M.val}
+        env = {"cap": v, "G_DUP": v, "G_CAP": glob["G_CAP"], "gcap": glob["gcap"], "K.Inner.C": K.Inner.C, "M.val": M.val}
         src = ast.parse(SHAPES[code]).body[0].value
         with nt():
             pristine = ast.parse(SHAPES[code]).body[0].value
@@ -157,7 +163,7 @@ def c04(code: int, alt: int, hist: int, v: Val, g: int, v2: int) -> str:
                 f.__closure__[0].cell_contents = v2
             glob["G_CAP"] = v2
         elif hist == 2:
-            glob["G_CAP"], glob["gcap"] = v2, v2
+            glob["G_CAP"], glob["gcap"], glob["G_DUP"] = v2, v2, v2
             K.Inner.C = v2
             M.val = v2
         elif hist == 3:
